@@ -236,6 +236,14 @@ pub fn c09(cx: &Ctx) -> (Vec<Violation>, Cover) {
             }
         }
     }
+    // "Commands queued by a system take effect in the order queued" also binds the commands of one run that were
+    // postponed for the same busy target: they are replayed in the order they were queued (the black-box sequence
+    // comparison is C12's; here only its verdicts about postponed deliveries are taken over).
+    for viol in c12(cx).0 {
+        if viol.sig.ends_with("/busy") {
+            v.push(Violation::new("C09", viol.sig.replace("C12/reorder", "C09/postponed-commands-of-one-run-out-of-issue-order"), viol.msg, viol.pos));
+        }
+    }
     (v, cov)
 }
 
